@@ -513,7 +513,13 @@ def check_listing(rep, repo, f, sec, sort, line_items, pa_c):
                 unknown_conds.append(c)
                 return None
             return (not r) if neg else r
-        line = canon(resolve(arr[3], decide))
+        def or_default(x):
+            # `text or 'placeholder'` on strings: the placeholder exactly when the text is empty
+            if x[0] == 'bool' and x[1] == 'or' and len(x[2]) == 2 and ((x[2][1][0] == 'const' and isinstance(x[2][1][1], str)) or x[2][1][0] == 'fstr'):
+                return ('ite', x[2][0], x[2][0], x[2][1])
+            return None
+        from ..canon import rewrite as _rw
+        line = canon(resolve(_rw(arr[3], or_default), decide))
         want = ref_line(sort, j, noassign, pa_c)
         case = 'without assignees' if noassign else 'with assignees'
         if equiv(line, want) or (noassign and equiv(line, ref_line(sort, j, True, pa_c, literal_zero=True))):
@@ -586,6 +592,28 @@ def student_sel(arr):
                 line = replace(a, I(D, i), val)
                 if not contains(line, lambda x: x == D):
                     return ACC(('array', n, i, b), (('setidx', key, canon(line), ch),))
+        if v[0] == 'ite':
+            # lines[i] = G(i) if D.get(i) is None else F(D.get(i))   with D = {key(p): val(p) for p in pairs}
+            c, a, b = v[1], v[2], v[3]
+            neg = False
+            while c[0] == 'not':
+                neg, c = not neg, c[1]
+            if c[0] == 'cmp' and c[1] in ('Is', 'Eq', 'IsNot', 'NotEq') and c[3] == NONE and c[2][0] == 'call' and c[2][1][0] == 'attr' and c[2][1][2] == 'get' \
+                    and tuple(c[2][2]) == (i,) and not (len(c[2]) > 3 and c[2][3]):
+                G, D = c[2], c[2][1][1]
+                if (c[1] in ('IsNot', 'NotEq')) != neg:
+                    a, b = b, a
+                # now: a when absent, b when present
+                ent = None
+                if D[0] == 'dictcomp':
+                    ent = (D[2], D[3], D[1])
+                elif D[0] == 'accum' and D[1] == ('dict', ()) and len(D[2]) == 1 and D[2][0][0] == 'setidx':
+                    ent = (D[2][0][1], D[2][0][2], D[2][0][3])
+                if ent is not None and not contains(a, lambda x: x == D):
+                    from ..canon import replace
+                    line = replace(b, G, ent[1])
+                    if not contains(line, lambda x: x == D):
+                        return canon(ACC(('array', n, i, a), (('setidx', ent[0], canon(line), ent[2]),)))
         if v[0] == 'ite':
             c, a, b = v[1], v[2], v[3]
             neg = False
